@@ -137,6 +137,9 @@ func init() {
 				v = a[1].(iface).v
 			}
 			ch.buf = append(ch.buf, v)
+			if fr.i.x.coop() {
+				fr.i.x.progress()
+			}
 			return nil
 		},
 		"vExpectRecv": func(fr *frame, a []value) value {
@@ -216,6 +219,63 @@ func init() {
 	} {
 		externals[k] = nop
 	}
+	// cooperative mode gives the sync primitives their blocking behaviour (a goroutine may park at a channel operation
+	// while holding a lock, or wait for others to finish)
+	externals["(*sync.WaitGroup).Add"] = func(fr *frame, a []value) value {
+		if ex := fr.i.x; ex.coop() {
+			ex.co.wg[a[0].(*value)] += int(ex.concretize(a[1]))
+			ex.progress()
+		}
+		return nil
+	}
+	externals["(*sync.WaitGroup).Done"] = func(fr *frame, a []value) value {
+		if ex := fr.i.x; ex.coop() {
+			ex.co.wg[a[0].(*value)]--
+			ex.progress()
+		}
+		return nil
+	}
+	externals["(*sync.WaitGroup).Wait"] = func(fr *frame, a []value) value {
+		if ex := fr.i.x; ex.coop() {
+			for ex.co.wg[a[0].(*value)] > 0 {
+				ex.yield("WaitGroup.Wait")
+			}
+		}
+		return nil
+	}
+	lock := func(write bool) func(fr *frame, a []value) value {
+		return func(fr *frame, a []value) value {
+			if ex := fr.i.x; ex.coop() {
+				m := a[0].(*value)
+				for ex.co.mu[m] < 0 || (write && ex.co.mu[m] > 0) {
+					ex.yield("Mutex.Lock")
+				}
+				if write {
+					ex.co.mu[m] = -1
+				} else {
+					ex.co.mu[m]++
+				}
+			}
+			return nil
+		}
+	}
+	unlock := func(write bool) func(fr *frame, a []value) value {
+		return func(fr *frame, a []value) value {
+			if ex := fr.i.x; ex.coop() {
+				m := a[0].(*value)
+				if write {
+					ex.co.mu[m] = 0
+				} else if ex.co.mu[m] > 0 {
+					ex.co.mu[m]--
+				}
+				ex.progress()
+			}
+			return nil
+		}
+	}
+	externals["(*sync.Mutex).Lock"], externals["(*sync.Mutex).Unlock"] = lock(true), unlock(true)
+	externals["(*sync.RWMutex).Lock"], externals["(*sync.RWMutex).Unlock"] = lock(true), unlock(true)
+	externals["(*sync.RWMutex).RLock"], externals["(*sync.RWMutex).RUnlock"] = lock(false), unlock(false)
 	externals["(*sync.Mutex).TryLock"] = func(fr *frame, a []value) value { return true }
 	externals["(*sync.Once).Do"] = func(fr *frame, a []value) value {
 		ex := fr.i.x
@@ -351,6 +411,10 @@ func init() {
 	}
 	externals["time.Since"] = func(fr *frame, a []value) value { return fr.i.x.newSym("time.since", types.Int64) }
 	externals["time.Sleep"] = nop
+	// time.After: a timeout that does not elapse within the run (time only advances when the harness fires a timer)
+	externals["time.After"] = func(fr *frame, a []value) value {
+		return &vchan{cap: 1, elem: nil}
+	}
 }
 
 func fmtArg(v value) string {
